@@ -4,6 +4,7 @@
 
 include!(concat!(env!("OUT_DIR"), "/repo_mods.rs"));
 
+mod blackbox;
 mod eng;
 mod graph;
 mod json;
@@ -19,6 +20,20 @@ use props::posprops::{self, Which};
 
 fn arg(args: &[String], name: &str) -> Option<String> {
     args.iter().position(|a| a == name).and_then(|i| args.get(i + 1)).cloned()
+}
+
+fn engine_hooks(args: &[String]) -> String {
+    arg(args, "--engine").unwrap_or_else(|| {
+        eprintln!("this command needs --engine <hooks-on binary>");
+        std::process::exit(2)
+    })
+}
+
+fn engine_plain(args: &[String]) -> String {
+    arg(args, "--engine-plain").unwrap_or_else(|| {
+        eprintln!("this command needs --engine-plain <hooks-off binary>");
+        std::process::exit(2)
+    })
 }
 
 fn main() {
@@ -101,6 +116,40 @@ fn main() {
             0
         }
         "c15-one" => props::c15::replay(&arg(&args, "--seq").unwrap(), seed),
+        "c04" => {
+            props::c04::run(&tier, seed, &out);
+            0
+        }
+        "c04-one" => props::c04::replay(&arg(&args, "--cmds").unwrap()),
+        "c08" => {
+            props::c08::run(&tier, seed, &out);
+            0
+        }
+        "c08-one" => props::c08::replay(&arg(&args, "--fen").unwrap(), arg(&args, "--depth").unwrap().parse().unwrap(), arg(&args, "--mode").as_deref() == Some("attack")),
+        "c09" => {
+            props::c09::run(&tier, seed, &out);
+            0
+        }
+        "c09-one" => props::c09::replay(&arg(&args, "--start").unwrap(), &arg(&args, "--moves").unwrap_or_default(), arg(&args, "--prev-moves").as_deref()),
+        "c03" => {
+            props::c03::run(&tier, seed, &out, &engine_hooks(&args));
+            0
+        }
+        "c03-one" => props::c03::replay(&arg(&args, "--history").unwrap(), &engine_hooks(&args)),
+        "c13" => {
+            props::c13::run(&tier, seed, &out, &engine_hooks(&args));
+            0
+        }
+        "c13-one" => props::c13::replay(&arg(&args, "--history").unwrap_or_default(), arg(&args, "--k").and_then(|k| k.parse().ok()).unwrap_or(2), &engine_hooks(&args), seed),
+        "c16" => {
+            props::c16::run(&tier, seed, &out, &engine_hooks(&args), &engine_plain(&args));
+            0
+        }
+        "c16-one" => {
+            let which = arg(&args, "--which").unwrap_or_else(|| "hooks off".into());
+            let exe = if which == "hooks on" { engine_hooks(&args) } else { engine_plain(&args) };
+            props::c16::replay(&arg(&args, "--input").unwrap_or_default(), arg(&args, "--final-newline").as_deref() != Some("no"), &exe, &which)
+        }
         "c01-one" => posprops::replay_one(Which::C01, &arg(&args, "--fen").unwrap()),
         "c02-one" => posprops::replay_one(Which::C02, &arg(&args, "--fen").unwrap()),
         "c17-one" => posprops::replay_one(Which::C17, &arg(&args, "--fen").unwrap()),
